@@ -266,3 +266,14 @@ _extend("C19", "registry rule for explicit curve parameters: the decoded curve i
         "Additionally: explicit parameters of a registered curve decode to that curve object (name and OID attached), so the key re-encodes to the bytes it came from.")
 _extend("C13", "the tag-type predicate is interpreted on its complete domain against the pinned range table, however its table is written",
         "")
+
+# ---- round 11 of breaking changes and the ninth refactoring round
+for _pid in ("C02", "C06"):
+    _extend(_pid, "the text-envelope rule of C01 / C03 is evaluated for this property as well",
+            "Additionally: the hex lines of the text envelope cover all of the binary image, so the last bytes of a ciphertext cannot be left out of the file.")
+_extend("C10", "TLV scenarios require an entry that does not fit to sit alone in its block", "")
+_extend("C14", "star-height rule over every constant pattern the library hands to the re module (parsed with the standard pattern parser)",
+        "Additionally (termination of the identifier parser): no pattern nests an unbounded repetition in an unbounded repetition, so a failing match cannot take exponential time.")
+_extend("C18", "the bits2octets grid varies the input length and the bit length of the order", "")
+for _pid in ("C09", "C17"):
+    _extend(_pid, "contains_point is evaluated against the curve equation for all integer pairs over four small primes", "")
